@@ -377,8 +377,6 @@ def execute(case, focus=None):
         fired = {k: v - before.get(k, 0) for k, v in fs.fired.items() if v != before.get(k, 0)}
         return proc, fired
 
-    exp_on = expected_names(obj_nested, onames, "O")
-    exp_sn = expected_names(spec["species"], snames, "S")
     binary = ref.is_binary(spec["object"]) and ref.is_binary(spec["species"])
     rin = None
     results = {}
@@ -441,7 +439,7 @@ def execute(case, focus=None):
                       f"{where}: labelled={labelled} for {algo}")
             # names
             otree, stree = out.input.object_tree, out.input.species_lca.tree
-            for tree, expect, kind in ((otree, exp_on, "object"), (stree, exp_sn, "species")):
+            for tree, kind in ((otree, "object"), (stree, "species")):
                 names = [n.name for n in tree.traverse()]
                 run.check(all(names) and "NoName" not in names and len(set(names)) == len(names),
                           ("C12",), "C12.names-not-distinct",
@@ -453,10 +451,22 @@ def execute(case, focus=None):
                 run.check(all(got.get(c) == nm for c, nm in given.items()), ("C12",),
                           "C12.existing-name-changed",
                           lambda: f"{where}: line {ln}: {kind} names {got}, the input had {given}")
-                if binary:
-                    run.check(got == expect, ("C12",), "C12.automatic-names",
-                              lambda: f"{where}: line {ln}: {kind} ancestors named {got}, "
-                                      f"documented pre-order naming gives {expect}")
+                # unnamed ancestors: <prefix># with indices increasing in pre-order
+                prefix = "O" if kind == "object" else "S"
+                auto = [n.name for n in tree.traverse("preorder")
+                        if not n.is_leaf() and idx[n] not in given]
+                nums = [int(a[1:]) if re.fullmatch(prefix + r"\d+", a) else None for a in auto]
+                # (nodes created by resolving a polytomy are not ancestors of the input: for
+                # multifurcating inputs only the O#/S# pattern is demanded of them)
+                run.check(all(x is not None for x in nums)
+                          and (not binary or all(a < b for a, b in zip(nums, nums[1:]))),
+                          ("C12",),
+                          "C12.automatic-names",
+                          lambda: f"{where}: line {ln}: unnamed {kind} ancestors were named "
+                                  f"{auto} (pre-order); expected {prefix}# with increasing "
+                                  f"indices; input names {given}")
+                if auto:
+                    run.probe("automatic_names_checked")
             # cost
             on, sn = canon.ete_to_nested(otree), canon.ete_to_nested(stree)
             if ref.is_binary(on) and ref.is_binary(sn):
@@ -525,10 +535,8 @@ def execute(case, focus=None):
                       lambda: f"draw ({case['draw']}) of line {ln} written by reconcile {algo}: "
                               f"status {proc.status}, stderr {proc.stderr[-300:]!r}; line "
                               f"{line[:300]!r}")
-            if case["draw"] != "pdf" and proc.status == 0:
-                problems = parse_tikz(produced)["problems"]
-                run.check(not problems, ("C12",), "C12.draw-output-malformed",
-                          lambda: f"draw output: {problems[:2]}")
+            if case["draw"] != "pdf" and proc.status == 0 and parse_tikz(produced)["problems"]:
+                run.probe("draw_output_malformed")  # C15's business, observed only here
             run.probe("draw_" + case["draw"])
             run.event("draw", ln, proc.status, hashlib.sha256(produced.encode()).hexdigest())
 
